@@ -172,6 +172,13 @@ static void htp_gzip_decompressor_end(htp_decompressor_gzip_t *drec) {
         inflateEnd(&drec->stream);
         drec->zlib_initialized = 0;
     }
+
+    // Whatever the output buffer holds has been delivered (or is abandoned): a
+    // decompressor that is shut down after an error has nothing pending, and
+    // must not send its buffer again when it is called later or flushed at
+    // the end of the body.
+    drec->stream.next_out = drec->buffer;
+    drec->stream.avail_out = GZIP_BUF_SIZE;
 }
 
 /**
